@@ -708,4 +708,39 @@ def Geom.kind : Geom → Kind
   | .mline _ => .mline
   | .mpoint _ => .mpoint
 
+/-! ## in-place updates and re-export (`set_dt`, `strip_dt`, `buffer_dt`, `set_property`)
+
+`to_geojson` reads the shape's *current* fields on every call (`properties` is a plain property): a history
+"export, update in place, export again" is the export of the updated record. -/
+
+/-- `set_dt(dt)` (a `datetime` argument arrives here as the instant interval) -/
+def Src.setDt (s : Src) (dt : Option TI) : Src := { s with dt := dt }
+
+/-- `strip_dt()` -/
+def Src.stripDt (s : Src) : Src := { s with dt := none }
+
+/-- `buffer_dt(b)`: ValueError without time bounds, and when a negative buffer makes `end < start` -/
+def Src.bufferDt (s : Src) (b : Int) : Except String Src :=
+  match s.dt with
+  | none => .error "ERR:Value"
+  | some t => do
+      let t' ← TI.mk? (t.start - b) (t.stop + b)
+      pure { s with dt := some t' }
+
+/-- `set_property(key, value)` -/
+def Src.setProperty (s : Src) (key : String) (v : J) : Src := { s with props := oset s.props key v }
+
+/-- an imported `GeoPolygon` as an export source -/
+def Poly.toSrc (p : Poly) : PolySrc := .polygon p.outline (p.holes.map fun h => ⟨fun _ => h⟩)
+
+/-- an imported shape as an export source (import → update → export histories) -/
+def Shape.toSrc (s : Shape) : Src :=
+  ⟨(match s.geom with
+    | .polygon p => .poly p.toSrc
+    | .line vs => .line vs
+    | .point p => .point p
+    | .mpoly ps => .mpoly (ps.map Poly.toSrc)
+    | .mline ls => .mline ls
+    | .mpoint ps => .mpoint ps), s.dt, s.props⟩
+
 end GV.GeoJson
